@@ -285,6 +285,12 @@ impl TqcMap {
     pub fn entry_at(&self, i: usize) -> (r: (&ReplicaTimeout, &Signers))
         requires i < self.entries().len()
         ensures *r.0 == self.entries()[i as int].0, *r.1 == self.entries()[i as int].1 { unimplemented!() }
+    // A1: BTreeMap::get / contains_key (offered so that a lookup by key is decided rather than rejected)
+    #[verifier::external_body]
+    pub fn get(&self, k: &ReplicaTimeout) -> (r: Option<&Signers>)
+        ensures r.is_some() == self.has(*k), r matches Some(v) ==> *v == self.entries()[self.find(*k)].1 { unimplemented!() }
+    #[verifier::external_body]
+    pub fn contains_key(&self, k: &ReplicaTimeout) -> (r: bool) ensures r == self.has(*k) { unimplemented!() }
     pub open spec fn find(&self, k: ReplicaTimeout) -> int {
         choose|j: int| 0 <= j < self.entries().len() && self.entries()[j].0 == k
     }
@@ -479,8 +485,8 @@ def add_timeout(U):
          spec="    ensures r.view == view, r.map.entries().len() == 0, r.signature == agg_empty(),\n")
     U.fn(F_RT, "impl TimeoutQC :: fn add", wrap="impl TimeoutQC", ret="r",
          header_subs=[("validator::Schedule", "Schedule")],
-         subs=[("s.0[i]", "s.0.get_bit(i)")],
-         chains=[dict(recv="self.map", methods=["values", "any"],
+         subs=[("s.0[i]", "s.0.get_bit(i)", None)],
+         chains=[dict(recv="self.map", methods=["values", "any"], optional=True,
                       closures={1: dict(ty="&Signers", ret="b: bool",
                                         spec="requires i < {p}.0@.len() ensures b == {p}.0@[i as int]")},
                       template="tmpl_map_values_any(&self.map, {a1}, Ghost(|j: int| self.map.entries()[j].1.0@[i as int]))"),
